@@ -609,27 +609,30 @@ class iindex(dict):
         # This takes some RAM but only O(rows), not subvars etc.
         dtype = fit_dtype(max(precedence), min(precedence))
         default = precedence[-1]
+        # A value listed more than once counts at its first position only.
+        ordered = list(dict.fromkeys(precedence))
         output = numpy.full(numrows, default, dtype=dtype)
         common_has_been_written = True
-        if default != new_common:
-            # We filled the output with the lowest-precedence coord.
-            # If that's NOT the common value, then we need to keep track
-            # of which rows have explicitly obtained an uncommon value.
+        if new_common in ordered and (
+            default != new_common or ordered[-1] != new_common
+        ):
+            # Some rows must obtain the common value although they are not
+            # listed under it, so we need to keep track of which rows have
+            # nothing but values of lower precedence than the common value.
             common_has_been_written = False
             common_count = numpy.full(numrows, numcols, dtype=fit_dtype(numcols))
-            for rowids in gathered.get(default, []):
-                common_count[rowids] -= 1
             for coord, rowid_lists in gathered.items():
-                if coord not in precedence:
+                if coord not in ordered:
                     for rowids in rowid_lists:
                         common_count[rowids] -= 1
-        for coord in reversed(precedence[:-1]):
+        for coord in reversed(ordered):
             if coord == new_common:
-                # Rows which already have ALL values at a lower precedence
-                # stay that way; any others get the common value for now,
-                # (but may be overwritten with higher precedence later).
-                output[common_count != 0] = coord
-                common_has_been_written = True
+                if not common_has_been_written:
+                    # Rows which already have ALL values at a lower precedence
+                    # stay that way; any others get the common value for now,
+                    # (but may be overwritten with higher precedence later).
+                    output[common_count != 0] = coord
+                    common_has_been_written = True
             else:
                 for rowids in gathered.get(coord, []):
                     output[rowids] = coord
